@@ -292,6 +292,44 @@ func multiCandidates(rec *fw.Rec) {
 	}
 }
 
+// unforcedCompile: specs compiled without force (Compile(ctx, interpreters, false)): what
+// has no compiled form yet must get one.  A node whose action is native (already an Action)
+// and whose guards are given as source is the interesting case: the guards decide.
+func unforcedCompile(rec *fw.Rec) {
+	for gi, guard := range []*ref.Prog{{Ret: "null"}, {Ops: []ref.Op{{Op: "set", K: "g", V: "ran"}}, Ret: "same"}, {Ops: []ref.Op{{Op: "fail", V: "G-FAILS"}}, Ret: "same"}, {Ret: "cond", CondKey: "a"}} {
+		for _, withAction := range []bool{true, false} {
+			a := &ref.ASpec{Name: "unforced", Nodes: map[string]*ref.ANode{
+				"start":      {Branching: &ref.ABranching{Type: "bindings", Branches: []*ref.ABranch{{Guard: guard, Target: "guarded"}, {Target: "fallback"}}}},
+				"viaMessage": {Branching: &ref.ABranching{Type: "message", Branches: []*ref.ABranch{{HasPattern: true, Pattern: map[string]interface{}{"uid": "?u"}, Guard: guard, Target: "guarded"}, {Target: "fallback"}}}},
+				"guarded":    {}, "fallback": {},
+			}}
+			if withAction {
+				a.Nodes["start"].Action = &ref.Prog{Ops: []ref.Op{{Op: "set", K: "a", V: 1.0}}, Ret: "same"}
+			}
+			spec := a.Core(false, ref.NativeNilErr)
+			if withAction {
+				spec.Nodes["start"].Action = a.Core(true, ref.NativeNilErr).Nodes["start"].Action
+				spec.Nodes["start"].ActionSource = nil
+			}
+			if err := spec.Compile(context.Background(), nil, false); err != nil {
+				rec.Violation("C04:unforced-compile-error", "a valid spec does not compile without force: "+err.Error(), a)
+				return
+			}
+			markers := ref.SpecMarkers(a)
+			for _, bs := range []map[string]interface{}{{}, {"a": 2.0}, {"x": "y"}} {
+				if ok, _ := checkStep(rec, "unforced", a, spec, ref.Env{}, markers, ref.AState{Node: "start", Bs: bs}, nil, nil); !ok {
+					return
+				}
+				if ok, _ := checkStep(rec, "unforced", a, spec, ref.Env{}, markers, ref.AState{Node: "viaMessage", Bs: bs}, map[string]interface{}{"uid": "m"}, nil); !ok {
+					return
+				}
+			}
+			_ = gi
+		}
+	}
+	rec.Bucket("specs_compiled_without_force_checked")
+}
+
 // randomSpecs walks random multi-node specs and checks every stride.
 func randomSpecs(cfg fw.Config, rec *fw.Rec, n int) {
 	fw.Parallel(cfg.Workers, n, func(w, i int) {
@@ -342,7 +380,7 @@ func randomSpecs(cfg fw.Config, rec *fw.Rec, n int) {
 
 func Run(cfg fw.Config, rec *fw.Rec) {
 	rec.Rule = "enumerated single-node configurations (action x branching type x branch lists of length 0-2 over a pattern/guard/target vocabulary x 4 error settings) x 5 states x 5 pending values, each compiled with native and with ECMAScript actions, Spec.Step compared with an executable reference of the documented rule; plus every stride of random 3-node specs; non-trivial = configuration (or random spec) on which every compared step agreed; distinct by configuration"
-	rec.Required = []string{"configs_checked_reduced-native", "configs_checked_reduced-ecma", "random_specs_walked", "clause_branch taken", "clause_guarded branch taken", "clause_guard chose among several candidates", "clause_no branch applies", "clause_action failed; error returned", "clause_action failed; action error node", "clause_unknown node", "clause_message branching without a pending message"}
+	rec.Required = []string{"configs_checked_reduced-native", "configs_checked_reduced-ecma", "random_specs_walked", "clause_branch taken", "clause_guarded branch taken", "clause_guard chose among several candidates", "specs_compiled_without_force_checked", "clause_no branch applies", "clause_action failed; error returned", "clause_action failed; action error node", "clause_unknown node", "clause_message branching without a pending message"}
 	rec.Assume = []string{"the reference transcribes README 'Processing', doc/by-example.md and the doc comments of core/step.go, core/spec.go; where code alone defines behaviour (error + error-node state together, exact lastBindings content) the comparison is loose", "Spec.Step inspects only the current node and spec-level settings, so single-node configurations cover specs of any size for one step"}
 	// reduced vocabulary: complete enumeration, native; ECMAScript complete in thorough, 1/8 sample in quick
 	runConfigs(cfg, rec, false, true, 1, "reduced-native")
@@ -351,6 +389,7 @@ func Run(cfg fw.Config, rec *fw.Rec) {
 	runConfigs(cfg, rec, true, true, cfg.Pick(10, 1), "full-native")
 	runConfigs(cfg, rec, true, false, cfg.Pick(400, 40), "full-ecma")
 	multiCandidates(rec)
+	unforcedCompile(rec)
 	randomSpecs(cfg, rec, cfg.Pick(20000, 300000))
 	rec.SetExtra("exhaustive_subspace", "reduced vocabulary (4 patterns x 4 guards x 2 targets, lists <= 2, 5 actions, 4 settings, 5 states, 5 pendings) enumerated completely with native actions in both tiers and with ECMAScript actions in the thorough tier")
 }
